@@ -116,24 +116,30 @@ func (jt *JSONTable) RenderTo(w io.Writer) error {
 	if _, err = io.WriteString(w, "[\n"); err != nil {
 		return err
 	}
+	// A comma may only be written once we know that another object follows,
+	// and separator rows (blank lines) may come between the two; so what goes
+	// between objects is held back until the next object, or the end.
 	needComma := false
+	gap := ""
 	for _, r := range jt.AllRows() {
-		if needComma {
-			if _, err = io.WriteString(w, ",\n"); err != nil {
-				return err
-			}
-			needComma = false
-		}
 		if r.IsSeparator() {
-			if _, err = io.WriteString(w, "\n"); err != nil {
-				return err
-			}
+			gap += "\n"
 			continue
 		}
+		if needComma {
+			gap = ",\n" + gap
+		}
+		if _, err = io.WriteString(w, gap); err != nil {
+			return err
+		}
+		gap = ""
 		if err = jt.emitRowAsJSONObject(w, skipableColumns, keys, r.Cells()); err != nil {
 			return err
 		}
 		needComma = true
+	}
+	if _, err = io.WriteString(w, gap); err != nil {
+		return err
 	}
 	// We assume need newline prefix because no comma+newline from new row,
 	// but if the table is empty, this will result in "[\n\n]\n" which is
